@@ -244,7 +244,14 @@ class CounterToken(Token, FileSystemEventHandler):
         for path in self.path.glob("*.token"):
             tf = old_cache.get(path.name)
             if tf is None:
-                tf = TokenFile(path)
+                try:
+                    tf = TokenFile(path)
+                except ValueError:
+                    # We hold the IPC lock, so nobody is writing: the writer
+                    # died between creating and writing the file
+                    logging.warning("Removing incomplete token file %s", path)
+                    path.unlink()
+                    continue
                 tf.watch()
                 logging.debug("Read token file %s (%d)", path, tf.count)
             else:
